@@ -102,6 +102,70 @@ func buildVector(t gen.ElemType, storage string, xs []float64) ad.Vector {
 	return v
 }
 
+// buildConstVector builds one of the seven read-only sparse vector types.
+func buildConstVector(elem string, xs []float64) ad.ConstVector {
+	var idx []int
+	for i, x := range xs {
+		if x != 0 {
+			idx = append(idx, i)
+		}
+	}
+	n := len(xs)
+	switch elem {
+	case "ConstFloat64":
+		v := make([]float64, len(idx))
+		for k, i := range idx {
+			v[k] = xs[i]
+		}
+		return ad.NewSparseConstFloat64Vector(idx, v, n)
+	case "ConstFloat32":
+		v := make([]float32, len(idx))
+		for k, i := range idx {
+			v[k] = float32(xs[i])
+		}
+		return ad.NewSparseConstFloat32Vector(idx, v, n)
+	case "ConstInt8":
+		v := make([]int8, len(idx))
+		for k, i := range idx {
+			v[k] = int8(xs[i])
+		}
+		return ad.NewSparseConstInt8Vector(idx, v, n)
+	case "ConstInt16":
+		v := make([]int16, len(idx))
+		for k, i := range idx {
+			v[k] = int16(xs[i])
+		}
+		return ad.NewSparseConstInt16Vector(idx, v, n)
+	case "ConstInt32":
+		v := make([]int32, len(idx))
+		for k, i := range idx {
+			v[k] = int32(xs[i])
+		}
+		return ad.NewSparseConstInt32Vector(idx, v, n)
+	case "ConstInt64":
+		v := make([]int64, len(idx))
+		for k, i := range idx {
+			v[k] = int64(xs[i])
+		}
+		return ad.NewSparseConstInt64Vector(idx, v, n)
+	case "ConstInt":
+		v := make([]int, len(idx))
+		for k, i := range idx {
+			v[k] = int(xs[i])
+		}
+		return ad.NewSparseConstIntVector(idx, v, n)
+	}
+	panic("buildConstVector " + elem)
+}
+
+// constElem describes the element type of a read-only sparse vector.
+func constElem(name string) gen.ElemType {
+	t := TypeByName(name)
+	return gen.ElemType{Name: name, IsInt: t.Int, Bits: t.Bits}
+}
+
+const constStorage = "const-sparse"
+
 func buildMatrix(t gen.ElemType, storage string, xs []float64, rows, cols int) ad.Matrix {
 	m := gen.NullMatrix(t, storage, rows, cols)
 	for i := 0; i < rows; i++ {
@@ -127,10 +191,18 @@ func (c *call) run(rt ST) (f float64, i int64, p *fw.Panic) {
 			case RedM:
 				m = buildMatrix(c.elem, c.storage, c.args.X, c.args.Rows, c.args.Cols)
 			case RedVV:
-				v = buildVector(c.elem, c.storage, c.args.X)
-				w = buildVector(c.elem, c.storage, c.args.Y)
+				if c.storage == constStorage {
+					v, w = buildConstVector(c.elem.Name, c.args.X), buildConstVector(c.elem.Name, c.args.Y)
+				} else {
+					v = buildVector(c.elem, c.storage, c.args.X)
+					w = buildVector(c.elem, c.storage, c.args.Y)
+				}
 			default:
-				v = buildVector(c.elem, c.storage, c.args.X)
+				if c.storage == constStorage {
+					v = buildConstVector(c.elem.Name, c.args.X)
+				} else {
+					v = buildVector(c.elem, c.storage, c.args.X)
+				}
 			}
 			ApplyReduce(c.op, r, v, w, m, c.args.Par, tmp)
 			return
@@ -291,6 +363,11 @@ func Run(c *fw.Ctx) {
 		if cl.isReduce() {
 			cl.elem = gen.Types[r.Intn(len(gen.Types))]
 			cl.storage = r.Pick([]string{gen.Dense, gen.Sparse})
+			if op.Kind != RedM && r.Chance(0.3) {
+				// the seven read-only sparse vector types
+				cl.storage = constStorage
+				cl.elem = constElem(r.Pick([]string{"ConstInt8", "ConstInt16", "ConstInt32", "ConstInt64", "ConstInt", "ConstFloat32", "ConstFloat64"}))
+			}
 		} else {
 			cl.ots = pickTypes(r, Types, nScalarOperands(op), mix)
 		}
@@ -315,6 +392,10 @@ func Run(c *fw.Ctx) {
 			if cl.isReduce() {
 				cl.elem = floatElem(r)
 				cl.storage = r.Pick([]string{gen.Dense, gen.Sparse})
+				if op.Kind != RedM && r.Chance(0.25) {
+					cl.storage = constStorage
+					cl.elem = constElem(r.Pick([]string{"ConstFloat32", "ConstFloat64"}))
+				}
 			} else {
 				cl.ots = pickTypes(r, FloatFam, nScalarOperands(op), mix)
 			}
